@@ -28,7 +28,7 @@ MUTATORS = ('AddFp', 'AddDir', 'RmDir', 'AddHardLink', 'RmHardLink', 'RmFile', '
             'AddSymlink', 'AddEltorito', 'RmEltorito', 'DuplicatePvd', 'Outside')
 
 
-def record(tests=None):
+def record(tests=None, always=False):
     """-> (list of trace documents incl. 'image' bytes or None, stats)"""
     repo = checklib.REPO
     out = tempfile.mkdtemp(prefix='verif-rec-')
@@ -36,6 +36,8 @@ def record(tests=None):
         env = dict(os.environ, VERIF_RECORD_DIR=out, PYTHONHASHSEED='0', PYTHONDONTWRITEBYTECODE='1',
                    PYTHONPATH=os.pathsep.join([os.path.join(checklib.VERIF, 'harness'), repo]))
         env.pop('CLALANCETTE_PYCDLIB_VERIF', None)
+        if always:
+            env['VERIF_RECORD_ALWAYS'] = '1'
         t0 = det.real_time()
         p = subprocess.run([sys.executable, '-m', 'pytest', '-q', '-p', 'no:cacheprovider', '-p', 'pytest_record',
                             '-x', '--no-header', '-rN'] + [t for t in (tests or TESTS) if os.path.exists(os.path.join(repo, t))],
@@ -51,6 +53,8 @@ def record(tests=None):
                 with open(img, 'rb') as fh:
                     d['image'] = fh.read()
             docs.append(d)
+        for d in docs:
+            d['pass'] = 'always' if always else 'lazy'
         stats = {'pytest_exit': p.returncode, 'pytest_summary': tail, 'traces': len(docs),
                  'wall_s': round(det.real_time() - t0, 1)}
         if not docs:
@@ -121,9 +125,10 @@ def _finish(args):
     (tabname, k) = args
     d = _G[tabname][k]
     tab = replay.get_table(tabname)
-    tid = 'r' + hashlib.sha256(('%s#%s' % (d['test'], d['k'])).encode()).hexdigest()[:10]
+    tid = 'r' + hashlib.sha256(('%s#%s#%s' % (d['test'], d['k'], d.get('pass'))).encode()).hexdigest()[:10]
     ev = d['ev']
-    t = {'id': tid, 'ev': ev, 'test': d['test']}
+    t = {'id': tid, 'ev': ev, 'test': d['test'] + (' [always_consistent]' if d.get('pass') == 'always' else ''),
+         'key': [d['test'], d['k'], d.get('pass')]}
     at = d.get('image_at')
     data = d.get('image')
     if data is not None and at is not None and not any(e['a']['a'] in MUTATORS and e['res'] == 'ok' for e in ev[at + 1:]) \
@@ -134,6 +139,7 @@ def _finish(args):
         if v is not None:
             v['dec'] = replay.dec_obs(rep, tab, data)
         ev.append(m)
+        t['image_sha'] = hashlib.sha256(data).hexdigest()
         hyb = any(e['a']['a'] == 'Outside' and e['res'] == 'ok' for e in ev)
         # (directories relocated by Rock Ridge: the plain ECMA-119 reading of such an image is not
         # what the clauses of Volume.tla describe; C08 judges those images with Susp.tla)
@@ -152,6 +158,9 @@ def collect(tests=None, procs=16):
     """-> ([(table name, [traces])], stats)"""
     import multiprocessing
     docs, stats = record(tests)
+    docs2, stats2 = record(tests, always=True)
+    stats['always_pass'] = stats2
+    docs += docs2
     groups = group(docs)
     out = []
     for gi, (tab, members) in enumerate(groups):
@@ -164,6 +173,17 @@ def collect(tests=None, procs=16):
         with ctx.Pool(procs, initializer=det.install) as pool:
             traces = pool.map(_finish, [(tabname, k) for k in range(len(members))], chunksize=4)
         out.append((tabname, traces))
+    # C06: the image a scenario writes does not depend on when the metadata was recomputed - the
+    # always-consistent pass must produce the bytes of the lazy pass (clause ScheduleDiff)
+    lazy = dict(((t['key'][0], t['key'][1]), t.get('image_sha')) for _, ts in out for t in ts if t['key'][2] == 'lazy')
+    stats['schedule_pairs'] = 0
+    for _, ts in out:
+        for t in ts:
+            if t['key'][2] == 'always' and t.get('image_sha') and lazy.get((t['key'][0], t['key'][1])):
+                m = t['ev'][-1]
+                m['basekind'] = 'sched'
+                m['base'] = 'same' if lazy[(t['key'][0], t['key'][1])] == t['image_sha'] else 'differs'
+                stats['schedule_pairs'] += 1
     stats['tables'] = len(groups)
     stats['names'] = sum(len(t['names']) for t, _ in groups)
     stats['mastered'] = sum(1 for _, ts in out for t in ts if t['ev'][-1]['a']['a'] == 'Master')
